@@ -14,6 +14,10 @@ CLAIMS = {
          "The handler dispatch in router.ServeHTTP is a guarded sink: on every path that reaches it the route's authentication requirement is met (for every combination of route flags, lightweight routes included) and every required permission was granted to the identity the permission loop examined (or the session is an administrator), with an inductive invariant over the permission loop. Session.Authenticate is under contract (Authenticated only after a JWT validated, an unexpired cached token, a token that unwrapped or a password that validated; Admin implies Authenticated; locked-out sessions are not authenticated), as are the route builders (Authentication, LightWeight, Permissions store the declared requirements), auth.GetPermission/GetPermissions/findPermission, util.InListInsensitive and util.ErrorResponse. The frame (no intervening call changes the route flags or the session's authentication state) comes from the writer index and typed call graph recomputed on every run.",
          "Trusted: the user store interface (userIOService) as a record store; oauth.ValidateJWT (C22), auth.TokenUnwrap/tokens.Unwrap (C27/C21), auth.ValidatePassword (C25) are used through their contracts or results; TokenCache entries are trusted to be what was inserted (insertion site asserted). Frame assumptions about leaf library code are listed in the evidence. Sequential semantics. The route table itself needs no per-route obligation: the sink assertions hold for every value of the route flags.",
          "§7 C20"),
+ "C21": ("proof",
+         "Validators: tokens.Unwrap and tokens.Validate return success only for a token that decrypts under the server's current token key (C27 contracts), whose expiry is not before the time of the call, and whose id is not on the revocation list at the time of the call. Revocation list: Blacklist, Delete, Flush, IsBlacklisted and IsIDBlacklisted are under contract over the table's content (revokedAt(epoch, id); the epoch advances at each insert/delete/flush): Blacklist makes the id revoked, Delete makes it not revoked, IsBlacklisted/IsIDBlacklisted answer what the table says (from the cache or from the rows read, inductive invariant over the rows). Coherence, as package invariants re-established at every return of every one of these functions and of router Authenticate: every revocation-cache entry's Active flag equals the table's answer for its id; no locally issued token held in the decrypted-token cache is revoked; every such cached token carries its expiry. Authenticate's cache-hit path is asserted to have re-checked the expiry of a local token and, by the invariant, to accept no revoked one; its cache fill stores exactly the token that just unwrapped under the whole token text. Because the invariants are inductive over the operations, they hold after every sequential history of issue, revoke, un-revoke, flush, purge, sweep and validate. Table obligations: the two caches are filled only by these functions; no function writes the fields the invariants read after an entry is built.",
+         "Trusted: the revocation table as a keyed row set (anchored assumptions at the store calls: C30), AES-GCM for 'issued with the current key and not altered' (so the single-byte-mutation sweep of the statement is the AEAD's guarantee, assumed), caches.* contracts (C28). The 'if' direction (every valid token is accepted) is decided only as far as: no check other than these three rejects after decryption and JSON decoding succeed. Remote-authority tokens are outside the claim. Sequential semantics: the interleavings of the quantifier are not explored (tokens.mutex serialises the list operations; a revoke racing a cache fill in Authenticate is outside the model). Configuration-time SetDatabasePath/Close excluded.",
+         "§7 C21"),
  "C22": ("proof",
          "oauth.ValidateJWT, parseAndValidateJWT (and its keyfunc closure, verified as a function of its own), selectVerificationKey, keyByID, allKeys, findKeyByID, refreshJWKS and resetJWKSCache are under contract: a nil error implies the JWT library verified the signature with a key the keyfunc returned (published JWKS keys only, ECDSA/RSA only), expiry was required and lies in the future, issuer/audience options were set from the configuration, and the jti was looked up in the revocation list on this call (both on a result-cache hit and on a miss). The JWKS cache carries a package invariant (every cached key is a published key) checked at every writer; the result cache carries an insertion-time invariant backed by table obligations (call-site census, entry immutability).",
          "Trusted: golang-jwt/v5 ParseWithClaims (signature verification with the keyfunc's key, enforcement of parser options), JWK parsing, tokens.IsIDBlacklisted (revocation list, C21), caches.Find/Add as a map for OAuthJWTCache (C28). Fail-open when the revocation lookup itself errors is outside the property's quantifier and is visible in the contract (lookupFailed). Sequential semantics.",
